@@ -113,6 +113,8 @@ def value_names(obj):
 def pick_name(obj, sel):
     """sel: ['var', i] existing variable | ['new', name] | ['near', i] case-variant of an existing variable."""
     vs = variables(obj)
+    if not vs and sel[0] != 'new':
+        return 'X'          # (a history may have emptied the variable list)
     if sel[0] == 'var':
         return vs[sel[1] % len(vs)]
     if sel[0] == 'under':
